@@ -116,11 +116,11 @@ func (fc *fontCase) finish(t *rapid.T) {
 		}
 	}
 	fc.nGlobal = drawIndexSize(t, len(gl), "nG")
-	fc.emptyFillG = rapid.IntRange(0, 7).Draw(t, "emptyFillG") == 0
+	fc.emptyFillG = rapid.IntRange(0, 19).Draw(t, "emptyFillG") == 0
 	placeSubrs(t, gl, fc.nGlobal, "g")
 	for i := range fc.fds {
 		fc.fds[i].nLocal = drawIndexSize(t, len(loc[i]), "nL")
-		fc.fds[i].emptyFiller = rapid.IntRange(0, 7).Draw(t, "emptyFillL") == 0
+		fc.fds[i].emptyFiller = rapid.IntRange(0, 19).Draw(t, "emptyFillL") == 0
 		fc.fds[i].omitSubrs = fc.fds[i].nLocal == 0 && rapid.Bool().Draw(t, "omitSubrs")
 		placeSubrs(t, loc[i], fc.fds[i].nLocal, "l")
 	}
